@@ -667,7 +667,8 @@ def main(chk):
         'configuration is decided under C15; which pools survive a rebuild is decided where ConnectionPool::from_config is encoded (O2). '
         '(O3) What counts as "the definition changed": the PartialEq impls behind `old_config != new_config` and the Hash impls behind '
         'Pool::hash_value are executed from MIR for every struct of the configuration tree, on pairs of values that differ in exactly one field: '
-        'no field may be left out of either. (O4) SIGHUP: the select! loop of src/main.rs, from the MIR of the binary target, under event scripts that '
+        'no field may be left out of either. (O2-rebuild) what a pool kept or re-created by a reload shares with its predecessor and its siblings: an unchanged pool is kept also under auth_query; '
+        'a re-created pool has its own ban list shaped after the NEW definition; two users of a section have separate auth_hash cells. (O4) SIGHUP: the select! loop of src/main.rs, from the MIR of the binary target, under event scripts that '
         'contain SIGHUPs: each one calls reload_config exactly once and does not end the loop (native replay: the real binary, the file rewritten before the signal, '
         'a login only the new file allows).')
     chk.assumptions += [
